@@ -632,9 +632,22 @@ def correspondence(ctx, model_ok=True):
     kinds = ["jet"] * njet + ["oscar"] * (nfiles - njet)
     ctx.rng.shuffle(kinds)
     cases = []
+    forced_empty = 0
     for i, kind in enumerate(kinds):
         if kind == "jet":
             d = J.gen_doc(ctx.rng, ptype=["hadron", "parton", None][i % 3], max_events=4, max_mult=3)
+            if forced_empty < 2:
+                # in every run: files with an event WITHOUT particles that is neither the first nor the last event (every selector
+                # that starts at it is enumerated below) - not left to the draw
+                for _ in range(50):
+                    if len(d["events"]) >= 3:
+                        break
+                    d = J.gen_doc(ctx.rng, ptype=["hadron", "parton", None][i % 3], max_events=4, max_mult=3)
+                if len(d["events"]) >= 3:
+                    d["events"][1] = dict(d["events"][1], rows=[])
+                    if forced_empty == 1 and len(d["events"]) >= 4:
+                        d["events"][2] = dict(d["events"][2], rows=[])
+                    forced_empty += 1
             d["final_newline"] = True
             base = {"kind": "jet", "doc": d, "text": J.render(d)}
             filts = [False] + JET_FILTERS
